@@ -450,6 +450,70 @@ theorem dot_basis_eq_sum_Nleft (t : ℕ → K) (ht : Monotone t) (p span : ℕ) 
     · have : x ≤ t i := le_trans hx2 (ht (by omega))
       rw [Nleft_support t ht p i x (Or.inl this)]; ring
 
+/-! ### continuity at a simple knot -/
+
+theorem N_succ (t : ℕ → K) (p i : ℕ) (x : K) : N t (p+1) i x =
+    (if t (i+p+1) - t i = 0 then 0 else (x - t i) / (t (i+p+1) - t i) * N t p i x) +
+    (if t (i+p+2) - t (i+1) = 0 then 0 else (t (i+p+2) - x) / (t (i+p+2) - t (i+1)) * N t p (i+1) x) := by
+  simp only [N]
+
+theorem Nleft_succ (t : ℕ → K) (p i : ℕ) (x : K) : Nleft t (p+1) i x =
+    (if t (i+p+1) - t i = 0 then 0 else (x - t i) / (t (i+p+1) - t i) * Nleft t p i x) +
+    (if t (i+p+2) - t (i+1) = 0 then 0 else (t (i+p+2) - x) / (t (i+p+2) - t (i+1)) * Nleft t p (i+1) x) := by
+  simp only [Nleft]
+
+/-- continuity at a simple knot: for degree ≥ 1 the right- and left-continuous Cox–de Boor functions agree at a knot
+    `t_{s+1}` with `t_s < t_{s+1} < t_{s+2}` -/
+theorem N_eq_Nleft_at_simple_knot (t : ℕ → K) (ht : Monotone t) (s : ℕ) (h1 : t s < t (s+1)) (h2 : t (s+1) < t (s+2)) :
+    ∀ p, 1 ≤ p → ∀ i, N t p i (t (s+1)) = Nleft t p i (t (s+1)) := by
+  have hN0 : ∀ i, N t 0 i (t (s+1)) = if i = s+1 then 1 else 0 := by
+    intro i
+    simp only [N]
+    by_cases hi : i = s+1
+    · subst hi; rw [if_pos ⟨le_refl _, h2⟩, if_pos rfl]
+    · rw [if_neg hi, if_neg]
+      intro ⟨a, b⟩
+      rcases Nat.lt_or_ge i (s+1) with h | h
+      · exact absurd (ht (by omega : i + 1 ≤ s + 1)) (not_le.mpr b)
+      · have : t (s+2) ≤ t i := ht (by omega)
+        exact absurd (lt_of_lt_of_le h2 this) (not_lt.mpr a)
+  have hL0 : ∀ i, Nleft t 0 i (t (s+1)) = if i = s then 1 else 0 := by
+    intro i
+    simp only [Nleft]
+    by_cases hi : i = s
+    · subst hi; rw [if_pos ⟨h1, le_refl _⟩, if_pos rfl]
+    · rw [if_neg hi, if_neg]
+      intro ⟨a, b⟩
+      rcases Nat.lt_or_ge i s with h | h
+      · have : t (i+1) ≤ t s := ht (by omega)
+        exact absurd (lt_of_le_of_lt this h1) (not_lt.mpr b)
+      · exact absurd (ht (by omega : s + 1 ≤ i)) (not_le.mpr a)
+  have hd1 : t (s+1) - t s ≠ 0 := ne_of_gt (by linarith)
+  have hd2 : t (s+2) - t (s+1) ≠ 0 := ne_of_gt (by linarith)
+  have base : ∀ i, N t 1 i (t (s+1)) = Nleft t 1 i (t (s+1)) := by
+    intro i
+    rw [N_succ, Nleft_succ, hN0, hN0, hL0, hL0]
+    simp only [Nat.add_zero]
+    by_cases hi : i = s
+    · subst hi
+      simp [hd1, hd2]
+    · by_cases hi2 : i = s + 1
+      · subst hi2
+        simp
+        intro _ h; omega
+      · by_cases hi3 : i + 1 = s
+        · subst hi3
+          simp
+          intro _ h; omega
+        · simp [hi, hi2, hi3]
+  intro p hp
+  induction p with
+  | zero => omega
+  | succ p ih =>
+    intro i
+    rcases Nat.eq_zero_or_pos p with h0 | hpos
+    · subst h0; exact base i
+    · rw [N_succ, Nleft_succ, ih hpos i, ih hpos (i+1)]
 /-! ### translation invariance (periodic knots) -/
 
 theorem innerLoop_congr (l l' r r' : ℕ → K) (j : ℕ) : ∀ (vs : List K) (r0 : ℕ) (s : K),
@@ -504,6 +568,87 @@ theorem basisFunsDer_shift (t : ℕ → K) (n : ℕ) (L : K) (hper : ∀ i, t (i
     congr 1
     ring
   simp only [hs]
+
+/-! ### continuity of the local value lists across a simple knot -/
+
+/-- two lists of `p+1` local values on neighbouring cells that describe functions continuous across the common knot:
+    the active sets overlap with a shift of one and the two outer entries vanish -/
+def ShiftCont (A B : List K) (p : ℕ) : Prop :=
+  (∀ j, j < p → A.getD (j+1) 0 = B.getD j 0) ∧ A.getD 0 0 = 0 ∧ B.getD p 0 = 0
+
+/-- values at a simple knot `t_{s+1}` computed in the cell on its left (`span = s`) and on its right (`span = s+1`) -/
+theorem basis_continuous_at_knot (t : ℕ → K) (ht : Monotone t) (s p : ℕ) (hp1 : 1 ≤ p) (hps : p ≤ s)
+    (h1 : t s < t (s+1)) (h2 : t (s+1) < t (s+2)) :
+    ShiftCont (basisFuns t p (t (s+1)) s) (basisFuns t p (t (s+1)) (s+1)) p := by
+  have hC := N_eq_Nleft_at_simple_knot t ht s h1 h2 p hp1
+  have hL := levels_eq_Nleft t ht s (t (s+1)) h1 (le_refl _) p hps
+  have hR := levels_eq_N t ht (s+1) (t (s+1)) (le_refl _) h2 p (by omega)
+  refine ⟨?_, ?_, ?_⟩
+  · intro j hj
+    show (levels _ _ p).getD (j+1) 0 = (levels _ _ p).getD j 0
+    rw [hL (j+1) (by omega), hR j (by omega), ← hC]
+    congr 1; omega
+  · show (levels _ _ p).getD 0 0 = 0
+    rw [hL 0 (by omega), ← hC]
+    apply N_support t ht
+    right
+    have : s - p + 0 + p + 1 = s + 1 := by omega
+    rw [this]
+  · show (levels _ _ p).getD p 0 = 0
+    rw [hR p (le_refl _), hC]
+    apply Nleft_support t ht
+    left
+    have : s + 1 - p + p = s + 1 := by omega
+    rw [this]
+
+theorem getD_map_range' (f : ℕ → K) (n r : ℕ) : ((List.range n).map f).getD r 0 = if r < n then f r else 0 := by
+  by_cases h : r < n <;> simp [List.getD_eq_getElem?_getD, h]
+
+/-- slopes at a simple knot from the left and from the right cell (degree ≥ 2) -/
+theorem ders_continuous_at_knot (t : ℕ → K) (ht : Monotone t) (s p : ℕ) (hp2 : 2 ≤ p) (hps : p ≤ s)
+    (h1 : t s < t (s+1)) (h2 : t (s+1) < t (s+2)) :
+    ShiftCont (basisFunsDer t p (t (s+1)) s) (basisFunsDer t p (t (s+1)) (s+1)) p := by
+  obtain ⟨c1, c2, c3⟩ := basis_continuous_at_knot t ht s (p-1) (by omega) (by omega) h1 h2
+  set VL := basisFuns t (p-1) (t (s+1)) s with hVL
+  set VR := basisFuns t (p-1) (t (s+1)) (s+1) with hVR
+  -- shifted `saved` terms
+  have hS : ∀ j, j < p - 1 → derSaved t p s VL (j+1) = derSaved t p (s+1) VR j := by
+    intro j hj
+    simp only [derSaved]
+    rw [c1 j hj]
+    have e1 : s + (j + 1) + 1 = s + 1 + j + 1 := by omega
+    rw [e1]
+  have hS0 : derSaved t p s VL 0 = 0 := by simp only [derSaved]; rw [c2]; simp
+  have hSp : derSaved t p (s+1) VR (p-1) = 0 := by simp only [derSaved]; rw [c3]; simp
+  unfold ShiftCont basisFunsDer
+  simp only [← hVL, ← hVR, getD_map_range']
+  refine ⟨?_, ?_, ?_⟩
+  · intro j hj
+    have f1 : j + 1 < p + 1 := by omega
+    have f2 : j < p + 1 := by omega
+    have f3 : ¬ (j + 1 = 0) := by omega
+    simp only [f1, f2, f3, hj, if_true, if_false, Nat.add_sub_cancel]
+    have hA : derSaved t p s VL j = if j = 0 then 0 else derSaved t p (s+1) VR (j-1) := by
+      by_cases hj0 : j = 0
+      · subst hj0; rw [if_pos rfl, hS0]
+      · rw [if_neg hj0]
+        have e : j = (j - 1) + 1 := by omega
+        conv_lhs => rw [e]
+        exact hS (j-1) (by omega)
+    have hB : (if j + 1 < p then derSaved t p s VL (j+1) else 0) = derSaved t p (s+1) VR j := by
+      by_cases hjp : j + 1 < p
+      · rw [if_pos hjp, hS j (by omega)]
+      · rw [if_neg hjp]
+        have : j = p - 1 := by omega
+        rw [this, hSp]
+    rw [hA, hB]
+  · have f1 : 0 < p + 1 := by omega
+    have f2 : 0 < p := by omega
+    simp only [f1, f2, if_true, hS0]; ring
+  · have f1 : p < p + 1 := by omega
+    have f2 : ¬ (p = 0) := by omega
+    have f3 : ¬ (p < p) := by omega
+    simp only [f1, f2, f3, if_true, if_false, hSp]; ring
 
 /-! ### uniform knots: closed forms of the triangle (uniform-cubic fast path) -/
 
@@ -639,6 +784,33 @@ theorem dotFrom_eq_sum (c : ℕ → K) (start : ℕ) (basis : List K) :
   exact this
 
 end sums
+
+section shiftdot
+variable {K : Type*} [Field K] [LinearOrder K] [IsStrictOrderedRing K]
+
+theorem shiftCont_dot (A B : List K) (p : ℕ) (h : ShiftCont A B p) (hA : A.length = p + 1) (hB : B.length = p + 1)
+    (c c' : ℕ → K) (a a' : ℕ) (hc : ∀ j, j < p → c (a + (j + 1)) = c' (a' + j)) :
+    dotFrom c a A = dotFrom c' a' B := by
+  obtain ⟨h1, h2, h3⟩ := h
+  rw [dotFrom_eq_sum, dotFrom_eq_sum, hA, hB]
+  have e1 : ((List.range (p + 1)).map (fun j => c (a + j) * A.getD j 0)).sum
+      = ((List.range p).map (fun j => c' (a' + j) * B.getD j 0)).sum := by
+    rw [List.range_succ_eq_map]
+    simp only [List.map_cons, List.sum_cons, List.map_map, h2, mul_zero, zero_add]
+    apply congrArg
+    apply List.map_congr_left
+    intro j hj
+    have hj' := List.mem_range.mp hj
+    simp only [Function.comp, Nat.succ_eq_add_one]
+    rw [hc j hj', h1 j hj']
+  have e2 : ((List.range (p + 1)).map (fun j => c' (a' + j) * B.getD j 0)).sum
+      = ((List.range p).map (fun j => c' (a' + j) * B.getD j 0)).sum := by
+    rw [List.range_succ]
+    simp only [List.map_append, List.sum_append, List.map_cons, List.map_nil, List.sum_cons, List.sum_nil, h3,
+      mul_zero, add_zero]
+  rw [e1, e2]
+
+end shiftdot
 
 /-! ### derivative of the A2.2 triangle in an abstract differential ring
 
